@@ -19,7 +19,15 @@ A scenario (JSON-able):
                | ["F", code, obs|None]   # a response that is no notification arrives on the observation's token
                | ["X", k]                # transport failure (k as in c07_app: 1 ConRetransmitsExceeded, 2 NetworkError)
                | ["RC"]                  # the application cancels request.response (only before the first "serve")
+               | ["OC"]                  # the application calls request.observation.cancel() (it may still want the
+                                         # response): as the very first step = before the first response arrives
+               | ["O", when, remote]     # a further request of the application (plain GET, never answered) to the
+                                         # observation's peer (0) or another one (1) is registered
+               | ["X", k, 1]             # transport failure reported for the OTHER peer
                | ["T", n]],              # n event-loop iterations pass
+     "cancel_on_response": bool,         # the application only wanted the response: a task of it does
+                                         # `await request.response; request.observation.cancel()`
+     "tuning": kind,                     # the request's transport_tuning as the application passes it (c07_pipe.TUNINGS)
      "hows": ["ok" | "etag" | "short" | "wrongnum" | "err" | "errb2" | "noblock2" | "neterr", ...]}
 Representation 0 answers the request itself (Observe 1).  HOWS -- "ok": the block of the current representation;
 "etag": that block under another ETag; "short": one byte missing although more blocks follow; "wrongnum": the block
@@ -35,7 +43,7 @@ that followed each.  That trace is compared with the Lean model of the loop (`Ai
 """
 import asyncio
 
-from c07_pipe import rfc_fresher, is_notification
+from c07_pipe import rfc_fresher, is_notification, make_tuning
 
 SZX = 2                 # 64-byte blocks
 BS = 16 << SZX
@@ -105,6 +113,9 @@ async def run_scenario(aiocoap, sc):
     tman.token_interface = ti
     ctx.request_interfaces.append(tman)
     remote = FakeRemote()
+    remotes = [remote, FakeRemote()]
+    remotes[1].hostinfo, remotes[1].uri_base, remotes[1].blockwise_key = "other.example", "coap://other.example", "o"
+    others = []
     reps = sc["reps"]
     bodies = {body_of(r, spec): r for r, spec in enumerate(reps)}
 
@@ -157,12 +168,32 @@ async def run_scenario(aiocoap, sc):
     ctx.request = request
     P.BlockwiseRequest._complete_by_requesting_block2 = classmethod(wrapper)
 
-    msg = A.Message(code=A.GET, observe=0, uri_path=("obs",))
+    msg = A.Message(code=A.GET, observe=0, uri_path=("obs",), transport_tuning=make_tuning(A, sc.get("tuning")))
     msg.remote = remote
     seen = []
     escaped = []
-    state = {"cur": 0, "answered": 0, "hows": list(sc.get("hows") or []), "served": []}
+    state = {"cur": 0, "answered": 0, "hows": list(sc.get("hows") or []), "served": [], "matched": []}
+
+    def app_cancel():
+        # the application's own call; what it raises is raised into the application (a second cancel() is a no-op
+        # since fix 7ecf556: `C07_cancel_again_is_noop` -- compared through the trace, not judged by the oracle)
+        try:
+            req.observation.cancel()
+        except Exception as e:
+            state.setdefault("app_raised", []).append(type(e).__name__)
+
+    def start_other(rem):
+        m2 = A.Message(code=A.GET, uri_path=("other", str(len(others))))
+        m2.remote = remotes[rem]
+        r2 = orig_request(m2, handle_blockwise=False)
+        r2.response.add_done_callback(lambda f: f.cancelled() or f.exception())
+        others.append([rem, r2, len(ti.sent)])
+        state["served"].append(("O", rem))
+
     try:
+        for st in sc["steps"]:
+            if st[0] == "O" and st[1] == -1:
+                start_other(st[2])        # registered before the observing request: that one is the newest entry
         req = ctx.request(msg)
         Error = error.Error
         cancel_at = sc.get("cancel_at")
@@ -194,6 +225,7 @@ async def run_scenario(aiocoap, sc):
             if r is not None and r == cancel_at:
                 if trace:
                     trace[-1][0] += ":c"
+                state["served"].append(("OC",))       # (where in the server's log the application cancelled)
                 req.observation.cancel()
 
         def app_errback(e):
@@ -249,12 +281,16 @@ async def run_scenario(aiocoap, sc):
             m.token, m.remote = token, remote
             return m
 
-        def deliver(m):
+        def deliver(m, on_token=False, first=False):
             try:
-                return tman.process_response(m)
+                ok = tman.process_response(m)
             except Exception as e:
                 escaped.append(type(e).__name__)
-                return None
+                ok = None
+            if on_token:
+                # (whether the token manager knew the token: what makes the message layer acknowledge or reject)
+                state["matched"].append([-1 if first else len(state["served"]) - 1, ok])
+            return ok
 
         async def serve():
             for _ in range(64):
@@ -263,6 +299,8 @@ async def run_scenario(aiocoap, sc):
                     return
                 rq = ti.sent[state["answered"]]
                 state["answered"] += 1
+                if rq.opt.uri_path[:1] == ("other",):
+                    continue                    # the application's other requests are never answered
                 num = rq.opt.block2.block_number if rq.opt.block2 is not None else 0
                 how = state["hows"].pop(0) if state["hows"] else "ok"
                 if how == "neterr":
@@ -275,9 +313,21 @@ async def run_scenario(aiocoap, sc):
                 deliver(block_response(rq.token, num, how))
 
         await turn(6)
-        first = ti.sent[0]
-        state["answered"] = 1
+        first = next(m for m in ti.sent if m.opt.observe == 0)
+        state["answered"] = ti.sent.index(first) + 1
         consumer = None
+        if sc.get("cancel_on_response"):
+            async def only_the_response():
+                try:
+                    await req.response
+                except Exception:
+                    return
+                state["served"].append(("OC",))
+                seen.append(("oc",))
+                # (the waiter of the response future runs before the task `_run` has just created for the loop)
+                state["start"] = "^c"
+                app_cancel()
+            only = loop.create_task(only_the_response())
         if sc["consumer"] == "iter":
             consumer = loop.create_task(consume())
             await turn(2)
@@ -285,16 +335,43 @@ async def run_scenario(aiocoap, sc):
         gave_up = False
         if steps and steps[0] == ["RC"]:
             steps.pop(0)
+            state["served"].append(("RC",))
             gave_up = req.response.cancel() or gave_up
             await turn(4)
-        deliver(block_response(first.token, 0, "ok", observe=1))
+        elif steps and steps[0] == ["OC"]:
+            steps.pop(0)
+            state["served"].append(("OC",))
+            seen.append(("oc",))
+            state["start"] = "^c"
+            app_cancel()
+            await turn(4)
+        while steps and steps[0][0] == "O" and steps[0][1] <= 0:
+            o = steps.pop(0)
+            if o[1] == 0:
+                start_other(o[2])             # while the observing request awaits its first response
+                await turn(2)
+        deliver(block_response(first.token, 0, "ok", observe=1), on_token=True, first=True)
         for st in steps:
             if st[0] in ("N", "F", "X"):
                 state["served"].append(tuple(st))
             if st[0] == "N":
                 state["cur"] = st[1]
-                deliver(block_response(first.token, 0, "ok", observe=st[2]))
+                deliver(block_response(first.token, 0, "ok", observe=st[2]), on_token=True)
                 await turn(4)
+            elif st[0] == "OC":
+                state["served"].append(("OC",))
+                seen.append(("oc",))
+                if not req.observation.cancelled:
+                    if not req.response.done():
+                        state["start"] = "^c"        # the response is not complete: the loop's task does not exist yet
+                    else:
+                        trace.append(["cancel", []])
+                app_cancel()
+                await turn(4)
+            elif st[0] == "O":
+                if st[1] != -1:
+                    start_other(st[2])
+                    await turn(2)
             elif st[0] == "S":
                 state["cur"] = st[1]
             elif st[0] == "serve":
@@ -304,7 +381,7 @@ async def run_scenario(aiocoap, sc):
                 if st[2] is not None:
                     m.opt.observe = st[2]
                 m.token, m.remote = first.token, remote
-                deliver(m)
+                deliver(m, on_token=True)
                 await turn(4)
             elif st[0] == "FB":
                 # a final response (2.05 without Observe: the server drops the observer) whose body is block-wise
@@ -312,17 +389,18 @@ async def run_scenario(aiocoap, sc):
                 state["served"].append(("F", 69, None, st[1]))
                 m = block_response(first.token, 0, "ok", observe=0)
                 m.opt.observe = None
-                deliver(m)
+                deliver(m, on_token=True)
                 await turn(4)
             elif st[0] == "X":
                 try:
                     tman.dispatch_error({1: error.ConRetransmitsExceeded(), 2: error.NetworkError("harness")}[st[1]],
-                                        remote)
+                                        remotes[st[2] if len(st) > 2 else 0])
                 except Exception as e:
                     escaped.append(type(e).__name__)
                 await turn(4)
             elif st[0] == "RC":
                 # (True only while the response is still pending, e.g. its body is still being fetched)
+                state["served"].append(("RC",))
                 gave_up = req.response.cancel() or gave_up
                 await turn(4)
             elif st[0] == "T":
@@ -345,13 +423,21 @@ async def run_scenario(aiocoap, sc):
                 consumer.cancel()
             await asyncio.gather(consumer, return_exceptions=True)
         snapshot = list(seen)
-        outstanding = len(ti.sent) - state["answered"]
+        if sc.get("cancel_on_response") and not only.done():
+            only.cancel()
+        other_states = []
+        for rem, r2, _ in others:
+            f = r2.response
+            other_states.append([rem, "pending" if not f.done() else "cancelled" if f.cancelled() else
+                                 "raise:" + _name(f.exception(), Error) if f.exception() is not None else "resp"])
+        outstanding = len([m for m in ti.sent[state["answered"]:] if m.opt.uri_path[:1] != ("other",)])
         lower_end = lower.get("end")
         if lower_end is not None:
             trace_end = "stop" if isinstance(lower_end, (error.NotObservable, error.ObservationCancelled)) else "raise"
         else:
             trace_end = None
         trace_snapshot = [[t, list(d)] for t, d in trace]
+        lower_cancelled = lower["obs"].cancelled if "obs" in lower else None
     finally:
         P.BlockwiseRequest._complete_by_requesting_block2 = orig
         try:
@@ -363,7 +449,9 @@ async def run_scenario(aiocoap, sc):
         loop.set_exception_handler(old)
     return {"seen": snapshot, "resp": resp, "escaped": escaped, "loop_errors": loop_errors, "pending": pending,
             "served": state["served"], "outstanding": outstanding, "trace": trace_snapshot,
-            "lower_end": trace_end, "gave_up": gave_up}
+            "lower_end": trace_end, "gave_up": gave_up, "matched": state["matched"], "others": other_states,
+            "start": state.get("start", ""), "lower_cancelled": lower_cancelled,
+            "app_raised": state.get("app_raised", [])}
 
 
 # ---------------------------------------------------------------------------------------------
@@ -388,6 +476,28 @@ def oracle(sc, res):
         if x[0] in ("eb", "raise") and ":" in x[1]:
             return (f"the application was handed {x[1]} as the error: the end of an observation is an exception "
                     "instance derived from aiocoap's error.Error"), "bw:error-not-instance"
+    v, key = oracle_others(sc, res)
+    if v:
+        return v, key
+    v, key = oracle_token_released(sc, res)
+    if v:
+        return v, key
+    if ("oc",) in seen:
+        # the application cancelled the observation itself (it may still want the response): nothing is handed to
+        # it or signalled afterwards; the response future still completes unless it was given up as well
+        k = seen.index(("oc",))
+        if seen[k + 1:] and sc["consumer"] == "callbacks":
+            # (an `async for` consumer may still fetch what was queued for it before the cancel; what an iteration
+            # over an observation its application cancelled does otherwise is not claimed)
+            return f"the application cancelled the observation, then was handed {seen[k + 1:]}", "bw:after-cancel"
+        if not res["gave_up"] and not any(st[0] == "RC" for st in sc["steps"]) and \
+                not any(e[0] in ("X", "F") or (e[0] == "B" and e[3] != "ok") for e in res["served"]) and \
+                (res["resp"] is None or res["resp"][0] != "resp"):
+            return (f"observation.cancel() must not take the response away: response future {res['resp']}"), \
+                "bw:response"
+        return "", None
+    # (further requests of the application and failures of the other peer are no business of this observation)
+    res = dict(res, served=[e for e in res["served"] if e[0] != "O" and not (e[0] == "X" and len(e) > 2 and e[2])])
     steps = sc["steps"]
     if res["gave_up"]:
         # the application's request.response.cancel() found the future pending (it returned True): the request was
@@ -534,10 +644,68 @@ def oracle(sc, res):
 # Correspondence with the Lean model of the loop
 # ---------------------------------------------------------------------------------------------
 
+def oracle_others(sc, res):
+    """the application's other requests: a transport failure reported for a peer (also the one the harness reports
+    under a block request: "neterr") fails every request outstanding to that peer, and none to another peer"""
+    want = []
+    for e in res["served"]:
+        if e[0] == "O":
+            want.append([e[1], "pending"])
+        elif e[0] == "X" or (e[0] == "B" and e[3] == "neterr"):
+            failed = e[2] if e[0] == "X" and len(e) > 2 else 0
+            name = EXC[e[1]] if e[0] == "X" else "NetworkError"
+            for w in want:
+                if w[0] == failed and w[1] == "pending":
+                    w[1] = "raise:" + name
+    if want != res.get("others", []):
+        return (f"the application's other requests (peer, state): expected {want}, found {res.get('others')} -- a "
+                "transport failure concerns exactly the requests outstanding to the peer it is reported for"), \
+            "bw:other-requests"
+    return "", None
+
+
+def oracle_token_released(sc, res):
+    """"After the end ... later notifications on that token are rejected like unknown responses": once a response
+    that is no notification (final response, or a first response that does not establish the observation) or a
+    transport failure of the peer has ended the observation, or the request was given up, nothing that arrives on
+    the token is known to the token manager any more.  When the application cancels the observation itself, the
+    client notices at the next notification (it has no other occasion: stated allowance, as for the plain API), so at
+    most ONE more is still taken; all later ones are rejected."""
+    served = res["served"]
+    ended_at = None            # position in `served` of what ended the observation
+    cancelled_at = None
+    for pos, e in enumerate(served):
+        if e[0] == "F" or (e[0] == "X" and not (len(e) > 2 and e[2])) or (e[0] == "B" and e[3] == "neterr"):
+            ended_at = pos if ended_at is None else ended_at
+        elif e[0] == "OC":
+            cancelled_at = pos if cancelled_at is None else cancelled_at
+    if res["gave_up"]:
+        rc = next(pos for pos, e in enumerate(served) if e[0] == "RC")
+        if sc["steps"][0] == ["RC"]:
+            ended_at = -2       # given up before the first response: nothing is taken on the token any more
+        else:
+            cancelled_at = rc   # given up while the body of the response was fetched: noticed at the next notification
+    taken_after_cancel = 0
+    for pos, ok in res.get("matched", []):
+        what = served[pos] if pos >= 0 else ("first response",)
+        if ended_at is not None and pos > ended_at and ok:
+            return (f"{what} arrived on the observation's token after the observation had ended "
+                    f"({served[ended_at] if ended_at >= 0 else 'request given up'}) and was still taken by the token "
+                    "manager (it would be acknowledged, not rejected)"), "bw:token-not-released"
+        if cancelled_at is not None and pos > cancelled_at and ok and pos >= 0:
+            taken_after_cancel += 1
+            if taken_after_cancel > 1:
+                return (f"the application cancelled the observation; {taken_after_cancel} later notifications on its "
+                        f"token were still taken by the token manager (the last: {what}) -- the token is never given "
+                        "up, every notification keeps being acknowledged"), "bw:token-not-released"
+    return "", None
+
+
 def trace_lines(res):
     """-> (driver line, implementation's canonical string), or None when `_run_observation` never got anything"""
     tr = res["trace"]
-    if all(tag == "-" for tag, _ in tr):
+    start = res.get("start", "")
+    if all(tag == "-" for tag, _ in tr) and not start:
         # the loop was never given anything: what the application's observation was told (if anything) came from
         # the paths of the response itself (`_run` / `_run_outer` / the cancellation handler), judged by the oracle
         return None
@@ -550,7 +718,17 @@ def trace_lines(res):
             continue
         toks.append(tag)
         outs.append(",".join(_canon(d) for d in dels) or ".")
-    return "C07 U " + " ".join(toks), " ".join(outs)
+    # has the lower observation been given up at the end?  (asked unless the lower observation has ended while the
+    # loop, busy with a fetch, has not come to see it)
+    saw_end = any(tag in ("stop", "raise", "cancel") or tag.split(":")[1:2] == ["net"] or tag.endswith(":c")
+                  for tag, _ in tr) or bool(start)
+    if res.get("lower_cancelled") is not None and (saw_end or res.get("lower_end") is None) \
+            and res["resp"] is not None and res["resp"][0] == "resp":
+        toks.append("?L")
+        outs.append("L+" if res["lower_cancelled"] else "L-")
+    if res.get("app_raised"):
+        outs.append("!observation.cancel()-raised:" + ",".join(res["app_raised"]))
+    return "C07 U " + " ".join(([start] if start else []) + toks), " ".join(outs) or "-"
 
 
 def _canon(d):
@@ -633,6 +811,58 @@ def boundary_scenarios():
         # ... and once the response is complete, which changes nothing
         out.append({"consumer": cons, "work": work, "reps": reps, "hows": [],
                     "steps": [["serve"], ["RC"], ["N", 1, 2], ["serve"], ["N", 2, 3], ["serve"]]})
+    out += round4_scenarios()
+    return out
+
+
+def round4_scenarios():
+    out = []
+    reps = [[2, 5], [3, 7], [2, BS], [1, 9], [4, 1], [2, 3]]
+    reps1 = [[1, 9], [3, 7], [2, BS], [1, 9], [4, 1], [2, 3]]         # the response itself fits one block
+    notifs = [["N", 1, 2], ["serve"], ["N", 2, 3], ["serve"], ["N", 3, 4], ["serve"], ["N", 4, 5], ["serve"]]
+    # the application cancels the observation itself (request.observation.cancel(); it may still want the response):
+    # before the first response, while the body of the first response is being fetched, the moment the response is
+    # complete (`await request.response` then cancel), between notifications, during the fetch of a notification --
+    # the server goes on notifying: the token has to be given up (oracle only)
+    for cons, work in (("callbacks", 0), ("iter", 0)):
+        for rp in (reps, reps1):
+            for pre in ([["OC"], ["serve"]], [["T", 1], ["OC"], ["serve"]], [["serve"], ["OC"]],
+                        [["serve"], ["N", 5, 2], ["OC"], ["serve"]], [["serve"], ["N", 5, 2], ["serve"], ["OC"]],
+                        [["OC"], ["T", 3], ["RC"], ["serve"]]):
+                for tail in (notifs, notifs[:4] + [["F", 132, None], ["N", 3, 9]], notifs[:2] + [["X", 2], ["N", 3, 9]]):
+                    out.append({"consumer": cons, "work": work, "reps": rp, "hows": [], "steps": pre + tail})
+            for tail in (notifs, notifs[:4] + [["F", 132, None], ["N", 3, 9]]):
+                out.append({"consumer": cons, "work": work, "reps": rp, "hows": [],
+                            "cancel_on_response": True, "steps": [["serve"]] + tail})
+                out.append({"consumer": cons, "work": work, "reps": rp, "hows": ["ok", "etag"],
+                            "cancel_on_response": True, "steps": [["serve"]] + tail})
+    # late notifications after every end: the token is given up at once
+    for cons, work in (("callbacks", 0), ("iter", 3)):
+        for end in (["F", 132, None], ["F", 69, None], ["F", 160, 9], ["X", 1], ["X", 2]):
+            out.append({"consumer": cons, "work": work, "reps": reps, "hows": [],
+                        "steps": [["serve"], ["N", 1, 2], ["serve"], end, ["N", 2, 3], ["serve"], ["N", 3, 4], ["serve"]]})
+            out.append({"consumer": cons, "work": work, "reps": reps, "hows": [],
+                        "steps": [["serve"], ["N", 1, 2], end, ["serve"], ["N", 2, 3], ["serve"]]})
+    # further requests of the application outstanding (registered before the observing request, while it awaits its
+    # first response, later; to the same / another peer) when the transport fails for the observation's peer (also
+    # under a block request), for the other peer
+    for cons, work in (("callbacks", 0), ("iter", 0)):
+        for os_ in ([["O", 1, 0]], [["O", 1, 1]], [["O", 1, 0], ["O", 1, 0]], [["O", 1, 1], ["O", 1, 0]],
+                    [["O", -1, 0]], [["O", -1, 1]], [["O", 0, 0]], [["O", 0, 1]], [["O", -1, 1], ["O", 1, 0]]):
+            early = [o for o in os_ if o[1] <= 0]
+            late = [o for o in os_ if o[1] > 0]
+            for fail, hows in (([["X", 2]], []), ([["X", 1]], []), ([["X", 2, 1], ["N", 3, 4], ["serve"]], []),
+                               ([["X", 1, 1], ["X", 2]], []), ([["N", 3, 4], ["serve"]], ["ok", "ok", "ok", "neterr"])):
+                out.append({"consumer": cons, "work": work, "reps": reps, "hows": list(hows),
+                            "steps": [o for o in early if o[1] == -1] + [o for o in early if o[1] == 0] +
+                                     [["serve"], ["N", 1, 2], ["serve"]] + late + fail + [["N", 2, 9], ["serve"]]})
+    # the request's transport tuning x reordered / duplicated notifications
+    from c07_pipe import TUNINGS
+    for kind in TUNINGS[1:]:
+        for cons, work in (("callbacks", 0), ("iter", 0)):
+            out.append({"consumer": cons, "work": work, "reps": reps, "hows": [], "tuning": kind,
+                        "steps": [["serve"], ["N", 1, 5], ["serve"], ["N", 2, 3], ["serve"], ["N", 3, 5], ["serve"],
+                                  ["N", 4, 6], ["serve"], ["N", 5, 1], ["serve"], ["F", 132, None], ["N", 1, 9]]})
     return out
 
 
@@ -679,4 +909,28 @@ def random_scenario(rng):
         sc["cancel_at"] = rng.randrange(1, nrep)
     if cons == "callbacks" and rng.random() < 0.3:
         sc["eb_cancels"] = True
+    r = rng.random()
+    if r < 0.15:
+        from c07_pipe import TUNINGS
+        sc["tuning"] = rng.choice(TUNINGS[1:])
+    elif r < 0.35:
+        # further requests of the application, and failures of the other peer
+        pre = []
+        for _ in range(rng.randrange(1, 3)):
+            k = rng.choice([-1, 0, 1])
+            o = ["O", k, rng.randrange(2)]
+            if k == 1:
+                steps.insert(rng.randrange(1, len(steps) + 1), o)
+            else:
+                pre.append(o)
+        if rng.random() < 0.5:
+            steps.insert(rng.randrange(1, len(steps) + 1), ["X", rng.choice([1, 2]), 1])
+        steps[:0] = sorted(pre, key=lambda o: o[1])
+    elif r < 0.5 and "cancel_at" not in sc and not sc.get("eb_cancels"):
+        # the application cancels the observation itself somewhere
+        if rng.random() < 0.3:
+            sc["cancel_on_response"] = True
+        else:
+            steps.insert(rng.randrange(0, len(steps) + 1), ["OC"])
+        steps += [["N", rng.randrange(1, nrep), obs + 2 + i] for i in range(3)]
     return sc
